@@ -4,11 +4,11 @@ from __future__ import annotations
 import ast
 from typing import Dict, List, Optional, Tuple
 
-from ..model import AnalysisError, NotLiteral, walk_no_nested
+from ..model import AnalysisError, NotLiteral, walk_no_nested, params_of
 from .. import report as R
 from ..report import RuleSpec
 from .. import codec as C
-from .common import fn_loc, node_loc, short, unparse, returns_of
+from .common import fn_loc, node_loc, short, unparse, returns_of, call_name
 
 META_CLS = "reamber.osu.OsuMapMeta.OsuMapMeta"
 READ_META = META_CLS + "._read_meta_string_list"
@@ -788,6 +788,82 @@ def rule_r7(ctx) -> List[R.Inst]:
     return insts
 
 
+def rule_r8(ctx) -> List[R.Inst]:
+    """column <-> x: bucket / midpoint shapes over one playfield width (decides the k = 1..18 clause through a lemma)
+
+    Lemma (frozen, elementary): with w = W/k and x = floor((c + 1/2) * w) for an integer column c in [0, k-1],
+    x / w lies in (c + 1/2 - 1/w, c + 1/2], which is inside (c, c + 1) whenever w > 2; hence floor(x / w) = c for every
+    key count k < W/2 (W = 512: k <= 255, in particular 1..18).  Conversely every x in [c*w, (c+1)*w) maps to c by
+    definition of the floor bucket.  So the two shapes below imply x_axis_to_column(column_to_x_axis(c, k), k) = c."""
+    from .. import sym
+    M = ctx.M
+    rid = "C01.R8"
+    cls = "reamber.osu.OsuNoteMeta.OsuNoteMeta"
+    insts = []
+    fx = M.fn(cls + ".column_to_x_axis")
+    fc = M.fn(cls + ".x_axis_to_column")
+    file = M.mods[fx.mod].rel
+    rx = [n for n in walk_no_nested(fx.node) if isinstance(n, ast.Return)]
+    rc = [n for n in walk_no_nested(fc.node) if isinstance(n, ast.Return)]
+    W = None
+    # ---- x_axis_to_column: clamp(floor(x // (W / keys)), 0, keys - 1)
+    key = "x->column:bucket"
+    e = rc[0].value if len(rc) == 1 else None
+    ok_c = False
+    if isinstance(e, ast.Call) and call_name(e) == "max" and len(e.args) == 2:
+        lo = [a for a in e.args if isinstance(a, ast.Constant)]
+        inner = [a for a in e.args if not isinstance(a, ast.Constant)]
+        if lo and lo[0].value == 0 and inner and isinstance(inner[0], ast.Call) and call_name(inner[0]) == "min" and len(inner[0].args) == 2:
+            hi = [a for a in inner[0].args if sym.canon(a).same(sym.parse("keys - 1"))]
+            core = [a for a in inner[0].args if a not in hi]
+            if hi and core:
+                b = core[0]
+                while isinstance(b, ast.Call) and call_name(b) in ("int", "floor"):
+                    b = b.args[0]
+                if isinstance(b, ast.BinOp) and isinstance(b.op, ast.FloorDiv) and unparse(b.left) == params_of(fc.node)[0]:
+                    r = sym.canon(b.right)
+                    # r == W / keys for a numeric W: try the constant in the numerator over the coefficient of `keys`
+                    if list(r.num) == [()] and len(r.den) == 1:
+                        cand = r.num[()] / list(r.den.values())[0]
+                        if r.same(sym.parse(f"({cand.numerator}/{cand.denominator}) / keys")):
+                            W = cand if cand.denominator != 1 else cand.numerator
+                            ok_c = True
+    if ok_c:
+        insts.append(R.ok(rid, key, file, rc[0].lineno, idiom=f"clamp(floor(x // ({W}/keys)), 0, keys-1): floor bucket of width {W}/keys"))
+    else:
+        insts.append(R.viol(rid, key, file, fc.node.lineno,
+                            "x -> column must be the floor bucket floor(x / (W / keys)) clamped to 0..keys-1 (W the playfield width)",
+                            construct=unparse(e) if e is not None else "no single return") if e is not None and
+                     sym.only_modelled(ast.parse("0", mode="eval").body, set()) and isinstance(e, ast.Call) else
+                     R.undec(rid, key, file, fc.node.lineno, "shape of x_axis_to_column not recognised"))
+    # ---- column_to_x_axis: floor((column + 1/2) * W / keys)
+    key = "column->x:midpoint"
+    e = rx[0].value if len(rx) == 1 else None
+    b = e
+    rounding = []
+    while isinstance(b, ast.Call) and call_name(b) in ("int", "floor", "round", "ceil"):
+        rounding.append(call_name(b))
+        b = b.args[0]
+    if b is None or W is None:
+        insts.append(R.undec(rid, key, file, fx.node.lineno, "shape of column_to_x_axis not recognised (or width unknown)"))
+    else:
+        col = params_of(fx.node)[0]
+        r = sym.canon(b)
+        want = sym.parse(f"({col} + 1/2) * {W} / keys")
+        if r.same(want) and set(rounding) <= {"int", "floor"} and rounding:
+            insts.append(R.ok(rid, key, file, rx[0].lineno,
+                              idiom=f"floor(({col} + 1/2) * {W}/keys): midpoint of the column's bucket, same width {W} (lemma: inverse for keys < {W / 2:g})"))
+        elif r.symbols() <= {col, "keys"}:
+            why = "rounds with " + "/".join(rounding) if not set(rounding) <= {"int", "floor"} else "is not the midpoint of the bucket of the same width"
+            insts.append(R.viol(rid, key, file, rx[0].lineno,
+                                f"column -> x must be floor((column + 1/2) * {W}/keys) — the midpoint of the bucket x_axis_to_column "
+                                f"uses; this one {why}, so for some key count a column is written to an x that reads back as its "
+                                f"neighbour", construct=unparse(e)))
+        else:
+            insts.append(R.undec(rid, key, file, rx[0].lineno, "formula not in modelled arithmetic"))
+    return insts
+
+
 SPECS = [
     RuleSpec("C01.R1", rule_r1, 30, "A1", "metadata key table: reader and writer agree on key, field and inverse transform"),
     RuleSpec("C01.R2", rule_r2, 1, "A8", "metadata value is everything after the first ':'"),
@@ -796,6 +872,7 @@ SPECS = [
     RuleSpec("C01.R5", rule_r5, 5, "A1", "line classifiers accept exactly the shapes the writers emit, pairwise exclusive"),
     RuleSpec("C01.R6", rule_r6, 6, "A8", "section markers, slice bounds and key-count order"),
     RuleSpec("C01.R7", rule_r7, 10, "A2", "every list is written and read; readers yield the declared columns"),
+    RuleSpec("C01.R8", rule_r8, 2, "A7", "column <-> x are the floor bucket and its midpoint over one width (lemma: mutually inverse for keys < 256)"),
 ]
 
 META = dict(
